@@ -4,6 +4,12 @@
 //   255      -> one block of the exhaustive lattice product: ordered integer type pair (ta,tb) = next byte % 36;
 //               every lattice(ta) x lattice(tb) pair is compared in both directions and every lattice(ta) value is read
 //               through getter tb inside a fixture (36 corpus seeds "exh-*.bin" enumerate the whole product in both tiers)
+//   208..239 -> RECYCLED operands: the pair is generated as in "other" below, then A, B or both are produced by a HISTORY:
+//               1..3 earlier setters (half of them an object / const object of TypeA..TypeD, the rest any kind) on the
+//               SAME MockNamedValue object before the judged value is set - directly, or (when every step has a
+//               MockSupport::setData* overload) through mock().setData / setDataObject / setDataConstObject on one name
+//               followed by getData.  Metamorphic oracle: history does not matter - equals in both directions and the
+//               getter sweep are judged exactly as for a fresh value holding the last value set.
 //   240..254 -> ALIASED operands: both values refer to the same storage.  Memory buffers: two sub-ranges (offset, length)
 //               of one exact-size block (same pointer with same / shorter / longer / zero length, overlapping ranges
 //               buf+k); strings: two pointers into one NUL-terminated block (same pointer, pointer into the middle),
@@ -22,6 +28,8 @@
 //         getter of the stored type itself must succeed.
 #include "common.h"
 #include "CppUTestExt/MockNamedValue.h"
+#include "CppUTestExt/MockSupport.h"
+#include <memory>
 #include <limits.h>
 #include <float.h>
 #include <math.h>
@@ -100,12 +108,24 @@ Fn g_fns[4] = {NULLPTR, fn1, fn2, fn3};
 struct Obj { int v; int tag; };
 Obj g_pool[4] = {{0, 0}, {0, 1}, {1, 2}, {2, 3}};   // pool[0] and pool[1]: same content, different identity
 const char* const OTYPE[4] = {"TypeA", "TypeB", "TypeC", "TypeD"};   // A, D: comparator installed; B: copier only; C: nothing
+// The comparators validate their arguments against the pool and never dereference anything else: being handed something
+// that is not an object (e.g. the raw bytes of an int through a stale comparator) is recorded as an oracle failure.
+bool g_cmp_bad = false; std::string g_cmp_bad_msg;
+bool in_pool(const void* p) { for (int i = 0; i < 4; i++) if (p == (const void*)&g_pool[i]) return true; return false; }
 struct ContentComparator : MockNamedValueComparator {
-    bool isEqual(const void* a, const void* b) CPPUTEST_OVERRIDE { return ((const Obj*)a)->v == ((const Obj*)b)->v; }
-    SimpleString valueToString(const void* a) CPPUTEST_OVERRIDE { return StringFrom(((const Obj*)a)->v); }
+    const char* name;
+    explicit ContentComparator(const char* n) : name(n) {}
+    bool isEqual(const void* a, const void* b) CPPUTEST_OVERRIDE {
+        if (!in_pool(a) || !in_pool(b)) {
+            if (!g_cmp_bad) g_cmp_bad_msg = sfmt("the %s comparator was called with (%s, %s)", name, in_pool(a) ? "an object" : "something that is not an object", in_pool(b) ? "an object" : "something that is not an object");
+            g_cmp_bad = true; return false;
+        }
+        return ((const Obj*)a)->v == ((const Obj*)b)->v;
+    }
+    SimpleString valueToString(const void* a) CPPUTEST_OVERRIDE { return in_pool(a) ? StringFrom(((const Obj*)a)->v) : SimpleString("(not an object)"); }
 };
 struct NopCopier : MockNamedValueCopier { void copy(void*, const void*) CPPUTEST_OVERRIDE {} };
-ContentComparator g_cmpA, g_cmpD;
+ContentComparator g_cmpA("TypeA"), g_cmpD("TypeD");
 NopCopier g_copier;
 MockNamedValueComparatorsAndCopiersRepository* g_repo;
 
@@ -130,6 +150,9 @@ struct Val {
     std::string bytes;           // string content / buffer content
     double d = 0, tol = 0.005; bool tol_default = true;
     int otype = 0, oidx = 0; bool repo_on = true;
+    // recycled operand: earlier values set on the same MockNamedValue object (the judged value is this descriptor, set last)
+    std::vector<std::unique_ptr<Val>> history;
+    bool via_store = false;      // history executed through mock().setData* on one name, value fetched with getData
     // materialised
     MockNamedValue* mv = nullptr;
     char* buf = nullptr;
@@ -152,32 +175,86 @@ struct Val {
         default: return p + std::string(KNAME[kind]) + ":" + i2s(iv);
         }
     }
-    void materialise() {
-        mv = new MockNamedValue("p");
-        // the value object is a tagged union: fill the whole union first so that a read of the wrong member is visible
-        if (prefill == 1) mv->setValue((unsigned long long)0xA5FFFFFFFFFFFFFFULL);
-        else if (prefill == 2) mv->setValue(bits2d(0xFFF7A5A5A5A5A5A5ULL), bits2d(0x7FF0000000000001ULL));
+    const char* cstr() {   // exact-size private copy: ASan sees over-reads
+        if (ext) return ext;
+        if (!is_null && !buf) { buf = (char*)malloc(bytes.size() + 1); memcpy(buf, bytes.c_str(), bytes.size() + 1); }
+        return buf;
+    }
+    // set this value on m (a fresh object, or one that already holds earlier values)
+    void apply(MockNamedValue& m) {
         switch (kind) {
-        case K_BOOL: mv->setValue(b); break;
-        case K_PTR: mv->setValue(addr()); break;
-        case K_CPTR: mv->setValue((const void*)addr()); break;
-        case K_FPTR: mv->setValue(g_fns[pidx]); break;
-        case K_STR:
-            if (ext) { mv->setValue(ext); break; }
-            if (!is_null) { buf = (char*)malloc(bytes.size() + 1); memcpy(buf, bytes.c_str(), bytes.size() + 1); }   // exact size: ASan sees over-reads
-            mv->setValue((const char*)buf); break;
+        case K_BOOL: m.setValue(b); break;
+        case K_PTR: m.setValue(addr()); break;
+        case K_CPTR: m.setValue((const void*)addr()); break;
+        case K_FPTR: m.setValue(g_fns[pidx]); break;
+        case K_STR: m.setValue(cstr()); break;
         case K_MEM:
-            if (ext) { mv->setMemoryBuffer((const unsigned char*)ext, bytes.size()); break; }
+            if (ext) { m.setMemoryBuffer((const unsigned char*)ext, bytes.size()); break; }
             if (!is_null) { buf = (char*)malloc(bytes.size() ? bytes.size() : 1); memcpy(buf, bytes.data(), bytes.size()); }
-            mv->setMemoryBuffer((const unsigned char*)buf, bytes.size()); break;
-        case K_DBL: if (tol_default) mv->setValue(d); else mv->setValue(d, tol); break;
+            m.setMemoryBuffer((const unsigned char*)buf, bytes.size()); break;
+        case K_DBL: if (tol_default) m.setValue(d); else m.setValue(d, tol); break;
         case K_OBJ: case K_COBJ:
             MockNamedValue::setDefaultComparatorsAndCopiersRepository(repo_on ? g_repo : NULLPTR);
-            if (kind == K_OBJ) mv->setObjectPointer(OTYPE[otype], &g_pool[oidx]); else mv->setConstObjectPointer(OTYPE[otype], &g_pool[oidx]);
+            if (kind == K_OBJ) m.setObjectPointer(OTYPE[otype], &g_pool[oidx]); else m.setConstObjectPointer(OTYPE[otype], &g_pool[oidx]);
             MockNamedValue::setDefaultComparatorsAndCopiersRepository(NULLPTR);
             break;
-        default: set_int(*mv, kind, iv); break;
+        default: set_int(m, kind, iv); break;
         }
+    }
+    // MockSupport's data store has overloads for these only
+    bool store_compatible() const {
+        switch (kind) {
+        case K_INT: case K_UINT: case K_BOOL: case K_PTR: case K_CPTR: case K_FPTR: case K_OBJ: case K_COBJ: return true;
+        case K_STR: return true;
+        case K_DBL: return tol_default;
+        default: return false;
+        }
+    }
+    void store_set(const char* name) {   // mock() installs its own repository (same comparators / copiers as g_repo)
+        switch (kind) {
+        case K_INT: mock().setData(name, (int)iv); break;
+        case K_UINT: mock().setData(name, (unsigned int)iv); break;
+        case K_BOOL: mock().setData(name, b); break;
+        case K_PTR: mock().setData(name, addr()); break;
+        case K_CPTR: mock().setData(name, (const void*)addr()); break;
+        case K_FPTR: mock().setData(name, g_fns[pidx]); break;
+        case K_STR: mock().setData(name, cstr()); break;
+        case K_DBL: mock().setData(name, d); break;
+        case K_OBJ: mock().setDataObject(name, OTYPE[otype], &g_pool[oidx]); break;
+        default: mock().setDataConstObject(name, OTYPE[otype], &g_pool[oidx]); break;
+        }
+    }
+    void materialise(const char* slot) {
+        if (history.empty()) {
+            mv = new MockNamedValue("p");
+            // the value object is a tagged union: fill the whole union first so that a read of the wrong member is visible
+            if (prefill == 1) mv->setValue((unsigned long long)0xA5FFFFFFFFFFFFFFULL);
+            else if (prefill == 2) mv->setValue(bits2d(0xFFF7A5A5A5A5A5A5ULL), bits2d(0x7FF0000000000001ULL));
+            apply(*mv);
+        } else if (via_store) {
+            for (auto& h : history) h->store_set(slot);
+            store_set(slot);
+            mv = new MockNamedValue(mock().getData(slot));
+            MockNamedValue::setDefaultComparatorsAndCopiersRepository(NULLPTR);
+        } else {
+            mv = new MockNamedValue("p");
+            for (auto& h : history) h->apply(*mv);
+            apply(*mv);
+        }
+    }
+    // Model of the one piece of history the code is known to keep (finding C09:stale-comparator-...): an object setter
+    // executed while NO default repository is installed leaves the comparator of an earlier object value in place.
+    bool stale_comparator_condition() const {
+        if (history.empty() || via_store || !(kind == K_OBJ || kind == K_COBJ) || repo_on) return false;
+        bool cmp = false;
+        for (auto& h : history) if ((h->kind == K_OBJ || h->kind == K_COBJ) && h->repo_on) cmp = h->has_cmp();
+        return cmp;
+    }
+    std::string render_history() const {
+        if (history.empty()) return "";
+        std::string o = via_store ? " via mock().setData*: " : " on one object: ";
+        for (auto& h : history) o += h->render() + " -> ";
+        return "[history" + o + "this]";
     }
 };
 
@@ -282,6 +359,27 @@ void derive_val(Reader& r, const Val& a, uint32_t rel, Val& v) {
     }
 }
 
+// RECYCLED operand: 1..3 earlier setters on the same object; half of the steps are objects (the values that install a
+// comparator / copier), the rest any kind.
+void gen_val(Reader& r, Val& v);
+void gen_history(Reader& r, Val& v) {
+    uint32_t n = 1 + r.below(3);
+    bool store = r.flag();
+    for (uint32_t i = 0; i < n; i++) {
+        std::unique_ptr<Val> h(new Val());
+        if (r.flag()) gen_val(r, *h);
+        else { h->kind = r.flag() ? K_COBJ : K_OBJ; h->otype = (int)r.below(4); h->oidx = (int)r.below(4); h->repo_on = r.below(4) != 3; }
+        v.history.push_back(std::move(h));
+    }
+    bool compat = v.store_compatible() && !v.ext;
+    for (auto& h : v.history) compat = compat && h->store_compatible();
+    v.via_store = store && compat;
+    if (v.via_store) {   // mock() always installs its repository
+        v.repo_on = true;
+        for (auto& h : v.history) h->repo_on = true;
+    }
+}
+
 // ALIASED operands: A and B refer to the same storage (owned by `st`).  Returns a class name for the histogram.
 struct Storage { char* p = nullptr; ~Storage() { free(p); } };
 std::string gen_alias(Reader& r, Val& a, Val& b, Storage& st, bool& distinct_views) {
@@ -376,6 +474,7 @@ void getter_body(void* p) {
 std::string sig_getter(const char* what, int getter, int stored) { return sfmt("C09:getter-%s:%s:%s", what, GETTER[getter], KNAME[stored]); }
 const char* const KEY_LL_OF_UL = "C09:getter-wrong-number:getLongLongIntValue:unsigned-long-int";
 const char* const KEY_OPP_INF = "C09:doubles-opposite-infinities";
+const char* const KEY_STALE_CMP = "C09:stale-comparator-object-set-without-repository";
 
 // one getter call inside a private one-test fixture
 int check_getter(const MockNamedValue& mv, int stored, i128 value, int getter, bool count) {
@@ -402,6 +501,11 @@ int judge_equals(const Val& x, const Val& y, bool got, const char* dir) {
     int exp = expected(x, y, &why);
     if (exp < 0 || exp == (int)got) return 0;
     std::string sig;
+    if (x.stale_comparator_condition()) {   // known finding: accept the known answer for this one receiver
+        if (verif::known(KEY_STALE_CMP)) return 0;
+        return verif::fail(KEY_STALE_CMP, "%s: (%s%s).equals(%s) returned %s, a fresh value with the same content returns %s [history must not matter: an object set while no default repository is installed has no comparator]",
+                           dir, x.render().c_str(), x.render_history().c_str(), y.render().c_str(), got ? "true" : "false", exp ? "true" : "false");
+    }
     if (is_int(x.kind) && is_int(y.kind)) sig = sfmt("C09:integer-equals-wrong:%s:%s", KNAME[x.kind], KNAME[y.kind]);
     else if (x.tag() != y.tag()) sig = "C09:different-types-compare-equal";
     else if (x.kind == K_DBL) {
@@ -410,7 +514,7 @@ int judge_equals(const Val& x, const Val& y, bool got, const char* dir) {
         else sig = "C09:double-equals-wrong";
     }
     else sig = sfmt("C09:%s-equals-wrong", KNAME[x.kind == K_COBJ ? K_OBJ : x.kind]);
-    return verif::fail(sig.c_str(), "%s: (%s).equals(%s) returned %s, expected %s [%s]", dir, x.render().c_str(), y.render().c_str(), got ? "true" : "false", exp ? "true" : "false", why);
+    return verif::fail(sig.c_str(), "%s: (%s%s).equals(%s%s) returned %s, expected %s [%s]", dir, x.render().c_str(), x.render_history().c_str(), y.render().c_str(), y.render_history().c_str(), got ? "true" : "false", exp ? "true" : "false", why);
 }
 
 int run_block(uint32_t k) {
@@ -450,10 +554,30 @@ int run_pair(Reader& r, uint32_t mode, bool& nontrivial, std::string& desc) {
         desc = sfmt("A=%s B=%s rel=%u", a.render().c_str(), b.render().c_str(), rel);
         verif::cls(sfmt("relation:%u", rel).c_str());
     }
+    if (mode >= 208 && mode < 240) {
+        uint32_t which = r.below(3);   // 0: A, 1: B, 2: both
+        Val* ops[2] = {&a, &b};
+        for (int i = 0; i < 2; i++) {
+            if (which != 2 && which != (uint32_t)i) continue;
+            Val& v = *ops[i];
+            gen_history(r, v);
+            bool other_kind = false, had_cmp = false;
+            for (auto& h : v.history) { if (h->tag() != v.tag()) other_kind = true; if ((h->kind == K_OBJ || h->kind == K_COBJ) && h->has_cmp()) had_cmp = true; }
+            if (other_kind) nontrivial = true;
+            verif::cls(v.via_store ? "recycled:through-mock-data-store" : "recycled:setters-on-one-object");
+            verif::cls(sfmt("recycled:%s-history-of-%zu", i ? "B" : "A", v.history.size()).c_str());
+            bool obj_final = (v.kind == K_OBJ || v.kind == K_COBJ);
+            if (had_cmp) verif::cls(obj_final ? "recycled:object-with-comparator-then-object" : "recycled:object-with-comparator-then-native");
+            else verif::cls(obj_final ? "recycled:other-then-object" : "recycled:other-then-native");
+            desc += sfmt(" %s%s", i ? "B" : "A", v.render_history().c_str());
+        }
+    }
     if (verif::g_explain) fprintf(stderr, "  %s\n", desc.c_str());
     verif::cls(sfmt("pair:%s/%s", KNAME[a.kind], KNAME[b.kind]).c_str());
-    a.materialise(); b.materialise();
+    g_cmp_bad = false;
+    a.materialise("c09-slot-a"); b.materialise("c09-slot-b");
     bool ab = a.mv->equals(*b.mv), ba = b.mv->equals(*a.mv);
+    if (a.via_store || b.via_store) { mock().clear(); MockNamedValue::setDefaultComparatorsAndCopiersRepository(NULLPTR); }
     desc += sfmt(" -> %d/%d", (int)ab, (int)ba);
     if (verif::g_explain) fprintf(stderr, "  A.equals(B)=%d B.equals(A)=%d\n", (int)ab, (int)ba);
     const char* why;
@@ -462,6 +586,8 @@ int run_pair(Reader& r, uint32_t mode, bool& nontrivial, std::string& desc) {
         if (a.kind != b.kind && (boundary(a.iv) || boundary(b.iv))) nontrivial = true;
         if (a.iv != b.iv && wrap_to(a.kind, b.iv) == a.iv) verif::cls("integer-pair:wrap-alias");
     }
+    if (g_cmp_bad)
+        return verif::fail("C09:comparator-called-with-non-object", "%s while comparing %s", g_cmp_bad_msg.c_str(), desc.c_str());
     if (judge_equals(a, b, ab, "A.equals(B)")) return 1;
     if (judge_equals(b, a, ba, "B.equals(A)")) return 1;
     if (is_int(a.kind) && is_int(b.kind) && ab != ba)   // implied by the two judgements above; kept as the literal statement
@@ -493,6 +619,8 @@ extern "C" void verif_init(void) {
     g_repo->installCopier("TypeA", g_copier);
     g_repo->installCopier("TypeB", g_copier);
     g_repo->installComparator("TypeD", g_cmpD);
+    mock().installComparatorsAndCopiers(*g_repo);   // the data-store histories run against mock()'s own repository
+    MockNamedValue::setDefaultComparatorsAndCopiersRepository(NULLPTR);
     if (fn1 == fn2 || fn2 == fn3 || fn1 == fn3) { fprintf(stderr, "C09 harness: function pointer pool is not distinct\n"); abort(); }
 }
 extern "C" int verif_case(const uint8_t* data, size_t size) {
@@ -527,6 +655,17 @@ extern "C" int verif_known_repro(const char* key) {
     if (k == KEY_OPP_INF) {
         MockNamedValue a("p"), b("p"); a.setValue((double)INFINITY, 0.005); b.setValue(-(double)INFINITY, 0.005);
         return (a.equals(b) || b.equals(a)) ? 1 : 0;
+    }
+    if (k == KEY_STALE_CMP) {
+        // TypeA object with the repository installed, then a TypeC object on the same value with no repository: a fresh
+        // TypeC value has no comparator (equals -> false); the recycled one still answers through TypeA's comparator
+        MockNamedValue v("p"), w("p");
+        MockNamedValue::setDefaultComparatorsAndCopiersRepository(g_repo);
+        v.setObjectPointer("TypeA", &g_pool[0]);
+        MockNamedValue::setDefaultComparatorsAndCopiersRepository(NULLPTR);
+        v.setObjectPointer("TypeC", &g_pool[0]);
+        w.setObjectPointer("TypeC", &g_pool[1]);
+        return v.equals(w) ? 1 : 0;
     }
     return -1;
 }
